@@ -60,8 +60,8 @@ CHECKS = {
              'stratified sample (quick) of the two-call sessions are evaluated as Python expressions on the real operators: raised '
              '<=> ghost refused, dense matrix = ghost matrix, in both x64 modes. MC_Session.tla is the top-level system model: a heap '
              'of operator objects with the public operations (@, +, -, unary -, k*, .T, .I, reduce()) as actions and a ghost meaning '
-             'per object; HeapMeaning / HeapSizes / InversesInvert / ReducedNormal hold in every reachable state (2 operands + up to 2 '
-             '(quick) / 3 (thorough) derived objects) and the histories are replayed the same way.',
+             'per object; HeapMeaning / HeapSizes / HeapAsMatrix / InversesInvert / ReducedNormal hold in every reachable state (2 operands '
+             'out of 8 (quick) / 15 (thorough) + 2 derived objects) and the histories are replayed the same way.',
         note='Singular operands of lazy inverses excluded; NumPy ndarray left factors out of scope; two calls deep.',
         technique=TECH + 'spec sessions replayed as Python expressions on the real operators, results compared with the ghost matrix',
         design_ref='DESIGN.md §4 C02'),
